@@ -84,6 +84,45 @@ def _strip_paths(rg):
     return [out, _fld(rg, 2), _fld(rg, 3)]
 
 
+def page_model_check(fm, data, leaves, rgs):
+    """byte-level tie of Impl/WPagesFmt.v: every PLAIN data page of a non-dictionary, non-BOOLEAN chunk must be exactly
+    the payload the writer model lays out for the cells it holds.  -> (pages compared, [mismatch descriptions])"""
+    from harness import pqfile, fmtlib
+    fmd, _ = pqfile.read_footer(data)
+    n, bad = 0, []
+    for rg, rgcells in zip(fmd.row_groups, rgs):
+        for col, l, cells in zip(rg.columns, leaves, rgcells):
+            m = col.meta_data
+            if l["type"] == 0:
+                continue
+            pages, _, _ = pqfile.chunk_pages(data, m)
+            if any(p["type"] == 2 for p in pages):
+                continue
+            at = 0
+            for p in pages:
+                if p["type"] not in (0, 3) or p["encoding"] != 0:
+                    at += p.get("num_values", 0)
+                    continue
+                pc = cells[at:at + p["num_values"]]
+                at += p["num_values"]
+                payload = p["payload"]
+                if p["type"] == 0:
+                    raw = payload if not m.codec else fmtlib.CODECS[m.codec][1](payload, p["uncompressed_page_size"])
+                else:
+                    dl = p["def_len"]
+                    body = payload[dl:]
+                    if m.codec and p["is_compressed"] is not False:
+                        body = fmtlib.CODECS[m.codec][1](body, p["uncompressed_page_size"] - dl)
+                    raw = payload[:dl] + body
+                r = fm.pq.call("fmt_fp_page", 1 if p["type"] == 3 else 0, 1 if l["maxdef"] else 0, l["type"], l["tlen"],
+                               [[] if c is None else c for c in pc])
+                n += 1
+                if r[0] != b"ok" or bytes(r[1]) != raw:
+                    bad.append("column %s page at %d: model %s..., writer %s..." % (l["name"], p["offset"],
+                               (bytes(r[1]).hex()[:60] if r[0] == b"ok" else r), raw.hex()[:60]))
+    return n, bad
+
+
 def check_dataset(path, df, spec, o, fm):
     """-> dict(problems=[(stage, text)], files, lenient, pages...) for a written dataset at `path`"""
     from harness import fmtlib, rt
@@ -121,6 +160,12 @@ def check_dataset(path, df, spec, o, fm):
         for rg in r["rgs"]:
             for l, cells in zip(leaves, rg):
                 cols[l["name"]].extend(cells)
+        try:
+            k, bad = page_model_check(fm, data, r["leaves"], r["rgs"])
+            res["model_pages"] = res.get("model_pages", 0) + k
+            res.setdefault("model_bad", []).extend(bad[:2])
+        except Exception as e:    # noqa
+            res.setdefault("model_bad", []).append("harness: %s: %s" % (type(e).__name__, e))
         tv = _footer_tv(fm, data)
         pm = _pandas_meta(tv)
         if pm is None:
@@ -309,6 +354,7 @@ def run(ctx):
     results = C.pmap(_job, jobs, init=_init, nproc=min(8, os.cpu_count() or 4), job_timeout=300)
     files = lenient = 0
     decomp = {}
+    wm = {"compared": 0, "differ": 0, "first": None}
     for (spec, o), res in zip(jobs, results):
         case = {"spec": spec, "opts": o}
         if "__crashed__" in res:
@@ -336,12 +382,22 @@ def run(ctx):
         known = False
         if res["problems"]:
             known = not ctx.fail(classify(spec, o, res), case, "; ".join("%s: %s" % p for p in res["problems"])[:1500])
+        # byte equality of the deterministic writer model with the code is INFORMATION (DESIGN 4.2): a harmless rewrite of
+        # the writer (other padding, other run choice) must not alarm; the obligation is valid_file/dec_file on the real bytes
+        wm["compared"] += res.get("model_pages", 0)
+        wm["differ"] += len(res.get("model_bad", []))
+        if res.get("model_bad") and not wm["first"]:
+            wm["first"] = res["model_bad"][0]
         if not known:      # a known finding is accounted for by its own entry, not by the correspondence
             ctx.correspondence("valid_file (spec validator) accepts every file the writer produced", case,
                                "Valid", "Valid" if not invalid else invalid[0][1])
     ctx.extra["files_validated"] = files
     ctx.extra["files_needing_leniency_short_final_bitpacked_group"] = lenient
     ctx.extra["decompression"] = decomp
+    ctx.extra["writer_model_Impl_WPagesFmt_pages_compared"] = wm["compared"]
+    ctx.extra["writer_model_pages_not_byte_equal"] = wm["differ"]
+    if wm["first"]:
+        ctx.notes.append("writer model (information only): first page whose bytes differ from Impl/WPagesFmt: %s" % wm["first"])
 
 
 def replay(rep):
